@@ -266,15 +266,32 @@ struct Adaptor : Oomd::DropInServiceAdaptor {
   using Oomd::DropInServiceAdaptor::scheduleDropInAdd;
 };
 
-std::string engineCanon(Oomd::Engine::Engine& e) {
+// canonical rendering of the engine's private bookkeeping ("" if a refactoring made it unreadable: the unchanged-engine check
+// is then skipped instead of breaking the harness build)
+std::string engineCanon(Oomd::Engine::Engine& eng) {
   std::ostringstream o;
-  for (auto& b : e.rulesets_) {
-    o << b.ruleset->name_ << "[";
-    for (auto& d : b.dropins) o << d.tag << ",";
-    o << (b.ruleset->enabled_ ? "E" : "D") << b.ruleset->numTargeted_ << "]";
-  }
-  o << "hooks=" << e.prekill_hooks_in_reverse_order_.size();
+  [&](auto& e) {
+    if constexpr (requires { e.rulesets_.begin()->ruleset->name_; e.rulesets_.begin()->dropins.begin()->tag; e.rulesets_.begin()->ruleset->enabled_; e.rulesets_.begin()->ruleset->numTargeted_; e.prekill_hooks_in_reverse_order_.size(); }) {
+      for (auto& b : e.rulesets_) {
+        o << b.ruleset->name_ << "[";
+        for (auto& d : b.dropins) o << d.tag << ",";
+        o << (b.ruleset->enabled_ ? "E" : "D") << b.ruleset->numTargeted_ << "]";
+      }
+      o << "hooks=" << e.prekill_hooks_in_reverse_order_.size();
+    }
+  }(eng);
   return o.str();
+}
+// first action / first detector of the first ruleset (nullptr if not reachable any more)
+Oomd::Engine::BasePlugin* firstPlugin(Oomd::Engine::Engine& eng, bool action) {
+  Oomd::Engine::BasePlugin* p = nullptr;
+  [&](auto& e) {
+    if constexpr (requires { e.rulesets_[0].ruleset->action_group_[0].get(); e.rulesets_[0].ruleset->detector_groups_[0]->detectors_[0].get(); }) {
+      auto& rs = *e.rulesets_[0].ruleset;
+      p = action ? rs.action_group_[0].get() : rs.detector_groups_[0]->detectors_[0].get();
+    }
+  }(eng);
+  return p;
 }
 
 const char* kBaseForDropIn =
@@ -664,8 +681,7 @@ struct C12 : vr::Driver {
           exc = lr.exc;
           frames = lr.frames;
           if (lr.engine) {
-            auto& rs = *lr.engine->rulesets_[0].ruleset;
-            plugin = ps.action ? rs.action_group_[0].get() : rs.detector_groups_[0]->detectors_[0].get();
+            plugin = firstPlugin(*lr.engine, ps.action);
           }
         } else {
           auto d = loadDropIn(doc);
